@@ -65,7 +65,7 @@ PROPS = {
         "level": "proof",
         "verus": [("idxcheck", [None])],
         "functions": ["IdxCheck::new", "IdxCheck::iter", "Iterator::next"],
-        "kani": [("u8base", None)],
+        "kani": [("u8base", None), ("vcffrag", None)],
         "bounded_quick": [{"group": "idxk", "name": "bounded_idxcheck_3contigs", "bound": "3 contigs of length 1..=2", "timeout": 900},
                           {"group": "idxk", "name": "bounded_idxcheck_1contig", "bound": "1 contig of length 1..=3", "timeout": 600}],
         "bounded": [],
@@ -107,6 +107,7 @@ KANI_GROUPS = {
     "tables": {"attach": "src/ska_dict/bit_encoding.rs", "file": "tables_harness.rs", "complete": True},
     "rollstep": {"attach": "src/ska_dict/split_kmer.rs", "file": "rollstep_harness.rs", "complete": True},
     "readfilter": {"attach": "src/ska_dict.rs", "file": "readfilter_harness.rs", "incrate_unit": "readfilter_k", "complete": True, "args": ["-Z", "stubbing"]},
+    "vcffrag": {"attach": "src/ska_ref.rs", "file": "vcffrag_harness.rs", "incrate_unit": "vcffrag_k", "complete": True, "timeout": 1500},
     "tablefrag": {"fragment_unit": "tablefrag_k", "file": "tablefrag_harness.rs", "complete": True},
     "rowfragk": {"fragment_unit": "rowfrag_k", "file": "rowfrag_harness.rs", "complete": False},
     "wrappers": {"attach": "src/merge_ska_array.rs", "file": "wrappers_harness.rs", "complete": True, "args": ["-Z", "stubbing"]},
